@@ -83,13 +83,13 @@ mutant("C09-share-pmf-between-similar-keys-when-threaded", "tsdate/discrete.py",
                             pmf = similar.setdefault((key[0], round(key[1], -1)), pmf)
                             self.unfixed_likelihood_cache[key] = pmf
 ''')
-mutant("C09-standardize-callers-prior-in-place", "tsdate/discrete.py",
+mutant("C09-tie-break-tilt-accumulates-in-callers-prior", "tsdate/discrete.py",
        '''        self.priors.force_probability_space(lik.probability_space)
 ''',
        '''        self.priors.force_probability_space(lik.probability_space)
         if lik.probability_space == LOG_GRID:
-            # keep log priors well away from underflow
-            self.priors.grid_data -= np.max(self.priors.grid_data, axis=1, keepdims=True) + 1.0
+            # a mild preference for younger ages breaks exact ties between grid points
+            self.priors.grid_data -= 1e-3 * np.arange(self.priors.grid_data.shape[1])
 ''')
 mutant("C09-clock-in-eps", "tsdate/core.py",
        '''        fit_obj = self.main_algorithm(probability_space, eps, num_threads)
